@@ -1,4 +1,5 @@
 import StatimeModel.Lemmas.Fml
+import StatimeModel.Lemmas.FmlSteady
 import StatimeModel.Generated.Consts
 /-
 C06 — Foreign masters qualify only by sustained Announces and expire when silent.
@@ -444,14 +445,86 @@ theorem silence_expires (acc : Option (List Nat)) (src : PortId) (steps : List I
         (by rw [cutoff_eq l _ hint]; simp only [List.sum_cons] at hsum ⊢; omega)
       exact this m hmem
 
-/-! ### the half that is not proved
+/-- an Announce of clock `clock`, port `port` with sequence number `seq` -/
+def annOf' (clock port seq : Nat) : Ann :=
+  ⟨{ src := ⟨clock, port⟩, seq := seq },
+   { origin := ⟨0, 0⟩, utcOffset := 0, p1 := 128, clockClass := 248, accuracy := 0xfe, variance := 0xffff, p2 := 128, gm := clock,
+     steps := 0, timeSource := 0xa0 }⟩
 
-"A master that keeps announcing regularly, including across sequence-number wrap-around, is never
-dropped" is **not** a theorem here: it needs a joint invariant over arrival times, BMCA phases and
-`seqStale` across the 65535→0 wrap. What is proved towards it: `seqStale_next` below (the next
-sequence number is never stale, wrap included), `fresh_after_bmca` and `minAge_bmca` (records age
-by exactly the BMCA step and are kept while younger than the window). The `fml` stream's oracle
-("steady-master-dropped") and the correspondence check the full statement on the implementation. -/
+/-! ### a master that keeps announcing is never dropped
+
+Proved for a port that hears one foreign master (the list holds one entry): one Announce per BMCA
+period, consecutive sequence numbers modulo 2^16 — so the 65535→0 wrap is inside the statement —
+and a BMCA period shorter than the window. Every BMCA run then selects that master, with the
+Announce of the round, for ever. With several foreign masters on one port the statement is about
+the best of them only (the others lose their newest record on every run and are not re-registered —
+`atMost_one_bmca` above is the one-record instance of that); that case is not a theorem here, the
+`fml` stream's oracle ("steady-master-dropped") and the correspondence check it on the implementation. -/
+
+/-- rounds of `[Announce a, BMCA step s]` -/
+def rounds : List (Ann × Int) → List FOp
+  | [] => []
+  | (a, s) :: rs => .announce a :: .bmca s :: rounds rs
+
+/-- each round's Announce carries the successor of the previous sequence number and each BMCA
+period is shorter than the window -/
+def Chain (c : Steady.Ctx) (cutoff : Int) : Nat → List (Ann × Int) → Prop
+  | _, [] => True
+  | q, (a, s) :: rs => Steady.Next c q a ∧ s < cutoff ∧ Chain c cutoff a.hdr.seq rs
+
+/-- what the BMCA runs of the rounds report: nothing for the Announce, the round's Announce as
+Erbest for the BMCA run -/
+def expected (own : PortId) : List (Ann × Int) → List (Option Best)
+  | [] => []
+  | (a, _) :: rs => none :: some ⟨a, 0, own⟩ :: expected own rs
+
+theorem steady_from_post (c : Steady.Ctx) (hl : c.Listens) (rs : List (Ann × Int)) :
+    ∀ (l : FML) (q : Nat), 0 < l.cutoff → Steady.Post c l q → Chain c l.cutoff q rs →
+      (fmlRun c.acc l (rounds rs)).2 = expected c.own rs ∧
+      ∃ q', Steady.Post c (fmlRun c.acc l (rounds rs)).1 q' := by
+  induction rs with
+  | nil => intro l q _ hp _; exact ⟨rfl, q, hp⟩
+  | cons r rs ih =>
+    intro l q hpos hp hch
+    obtain ⟨a, s⟩ := r
+    obtain ⟨hn, hs, hrest⟩ := hch
+    have hmid := Steady.announce_step c l q a hl hpos hp hn
+    have hcut1 : (bmcaRegister l c.acc a).1.cutoff = l.cutoff :=
+      Steady.cutoff_congr l _ (by rw [hmid.1, hp.1])
+    have hb := Steady.bmca_step c (bmcaRegister l c.acc a).1 a s hl (by rw [hcut1]; exact hs) hn.1 hn.2.2 hmid
+    have hcut2 : ((takeBest (bmcaRegister l c.acc a).1 c.acc).1.stepAge s).cutoff = l.cutoff :=
+      Steady.cutoff_congr l _ (by rw [hb.2.1, hp.1])
+    have := ih _ a.hdr.seq (by rw [hcut2]; exact hpos) hb.2 (by rw [hcut2]; exact hrest)
+    simp only [rounds, fmlRun, fmlStep, expected]
+    refine ⟨?_, this.2⟩
+    rw [this.1, hb.1]
+
+/-- **A master that keeps announcing is never dropped** (one foreign master on the port): starting
+from an empty list, after the first Announce every round of "next Announce, BMCA run" — for any
+number of rounds, across any number of sequence-number wraps — reports that master as Erbest with
+the round's Announce. In particular it qualifies on its second Announce and never loses
+qualification. -/
+theorem steady_master_is_never_dropped (c : Steady.Ctx) (hl : c.Listens) (a0 : Ann) (rs : List (Ann × Int))
+    (hsrc : a0.hdr.src = c.src) (hq : a0.hdr.seq < 65536) (hsteps : a0.body.steps < STEPS_CUTOFF)
+    (hpos : 0 < (emptyFML c.interval c.own).cutoff)
+    (hch : Chain c (emptyFML c.interval c.own).cutoff a0.hdr.seq rs) :
+    (fmlRun c.acc (emptyFML c.interval c.own) (.announce a0 :: rounds rs)).2 = none :: expected c.own rs := by
+  have hp : Steady.Post c (bmcaRegister (emptyFML c.interval c.own) c.acc a0).1 a0.hdr.seq :=
+    Steady.first_announce c a0 hl hsrc hq hsteps hpos
+  have hcut : (bmcaRegister (emptyFML c.interval c.own) c.acc a0).1.cutoff = (emptyFML c.interval c.own).cutoff :=
+    Steady.cutoff_congr _ _ (by rw [hp.1]; rfl)
+  have := steady_from_post c hl rs _ a0.hdr.seq (by rw [hcut]; exact hpos) hp (by rw [hcut]; exact hch)
+  simp only [fmlRun, fmlStep]
+  rw [this.1]
+
+/-- the hypotheses are met across the wrap: sequence numbers 65534, 65535, 0, 1 -/
+example :
+    let c : Steady.Ctx := ⟨65536000000000, ⟨9, 1⟩, none, ⟨5, 1⟩⟩
+    c.Listens ∧ 0 < (emptyFML c.interval c.own).cutoff ∧
+    Chain c (emptyFML c.interval c.own).cutoff 65534
+      [(annOf' 5 1 65535, 1000), (annOf' 5 1 0, 1000), (annOf' 5 1 1, 1000)] := by
+  simp only [Chain, Steady.Next, Steady.Ctx.Listens]
+  decide +kernel
 
 /-- the successor sequence number (mod 2^16) is always accepted, across the wrap as well -/
 theorem seqStale_next (last : Nat) (h : last < 65536) : seqStale ((last + 1) % 65536) last = false := by
